@@ -20,9 +20,9 @@ RULE = ("Hypothesis-generated plain-data cases. ONIOM: H2..H5(6) chains/zigzags/
         "independently -> E must equal E_high(system) from PySCF. Link.relink on random geometries with element, built-in "
         "group, custom group and (anti)parallel-aligned caps -> vector formula + rigid-motion/axis test. DMET: H4/H6 "
         "chains/zigzags/rings, charge 0/+-2, RHF singlets and ROHF triplets, sto-3g and 3-21g, meta-Lowdin/NAO/IAO, fci/ccsd/mixed solvers, "
-        "fragmentations as counts or nested index lists in any order, Newton(tol 1e-9) or default optimizer; run twice "
+        "fragmentations as counts or nested index lists in any order, optimizer = Newton(tol 1e-9), Newton + two further probes of the mismatch before returning the root, or default; run twice "
         "(original / atoms relabelled by a random permutation with fragment lists mapped, reordered) -> equal energies, "
-        "electron-number residual ~0, and E = FCI(PySCF) whenever every fragment+bath has as many orbitals as the "
+        "electron-number residual ~0 and returned E = E re-evaluated at the returned chemical potential, and E = FCI(PySCF) whenever every fragment+bath has as many orbitals as the "
         "molecule. MI: complete synthetic QEMIST-style result dictionaries (2-5(6) centres, all orders up to kmax, random "
         "energies/corrections/labels, dict or log-file route, optional user_provided_energies) -> full order must equal "
         "the complete fragment's energy; lower kmax must equal the Moebius inclusion-exclusion sum. "
@@ -391,6 +391,15 @@ def _run_dmet(geom, charge, spin, basis, fragment_atoms, solvers, loc, optimizer
             "fragment_solvers": copy.deepcopy(solvers), "verbose": False}
     if optimizer == "newton-1e-9":
         opts["optimizer"] = lambda f, x0: scipy.optimize.newton(f, x0, tol=1e-9)
+    elif optimizer == "newton-1e-9+probe":
+        # a legitimate optimizer by the documented contract (it returns the root): after locating the root it looks at
+        # the mismatch at two more points, so its LAST function evaluation is not at the value it returns
+        def probing(f, x0):
+            root = scipy.optimize.newton(f, x0, tol=1e-9)
+            f(root + 0.05)
+            f(root - 0.03)
+            return root
+        opts["optimizer"] = probing
     d = DMETProblemDecomposition(opts)
     d.build()
     try:
@@ -399,13 +408,25 @@ def _run_dmet(geom, charge, spin, basis, fragment_atoms, solvers, loc, optimizer
         if "Failed to converge" in str(ex):   # scipy.optimize.newton: the documented failure mode of the root search
             raise Skip("dmet-root-search-did-not-converge")
         raise
-    mu = float(d.chemical_potential)
-    spans = [int(np.shape(f[6])[-1]) for f in d.scf_fragments]
+    # what simulate() reports, recorded before anything else is evaluated on the object
+    e = float(np.real(e))
+    mu = float(np.real(d.chemical_potential))
+    e_attr = getattr(d, "dmet_energy", None)
     nao = int(d.molecule.nao_nr())
     nelec = int(d.orbitals.number_active_electrons)
-    resid = float(np.real(d._oneshot_loop(d.chemical_potential)))
-    return {"e": float(e), "mu": mu, "spans": spans, "nao": nao, "resid": resid, "nelec": nelec, "n_iter": d.n_iter,
-            "frag_counts": list(d.fragment_atoms)}
+    # own evaluation AT the returned chemical potential (recomputes every fragment from scratch; does not rely on what
+    # simulate() left behind): electron-number mismatch, energy, and the fragment+bath sizes it stores
+    resid = float(np.real(d._oneshot_loop(d.chemical_potential, save_results=True)))
+    e_at_mu = float(np.real(d.dmet_energy))
+    stored = getattr(d, "scf_fragments", None)
+    spans = None
+    if stored is not None:
+        try:
+            spans = [int(np.shape(f[6])[-1]) for f in stored]
+        except (TypeError, IndexError):
+            spans = None
+    return {"e": e, "e_attr": None if e_attr is None else float(np.real(e_attr)), "e_at_mu": e_at_mu, "mu": mu, "spans": spans,
+            "nao": nao, "resid": resid, "nelec": nelec, "n_iter": d.n_iter, "frag_counts": list(d.fragment_atoms)}
 
 
 @part("dmet", quick=32, thorough=1100)
@@ -421,7 +442,7 @@ def dmet(ctx):
         e_hf1, e_hf2 = _ref(geom, "HF", basis, q, spin), _ref(g2, "HF", basis, q, spin)
         if abs(e_hf1 - e_hf2) > 1e-7:
             raise Skip("reference-scf-depends-on-atom-order")
-        tight = case["optimizer"] == "newton-1e-9"
+        tight = case["optimizer"].startswith("newton-1e-9")
         rtol, etol = (1e-6, ETOL) if tight else (1e-4, 1e-5)   # default optimizer stops at |d mu| < 1e-5
 
         flat = [a for f in frags for a in f]
@@ -441,6 +462,11 @@ def dmet(ctx):
             if not np.isfinite(r["resid"]) or abs(r["resid"]) > rtol:
                 raise Fail(f"after simulate() ({tag}, optimizer {case['optimizer']}) the fragment electron numbers sum to "
                            f"{ne}+({r['resid']:.3e}) at mu={r['mu']!r}", sig="dmet:electron-number-residual")
+            if not np.isfinite(r["e"]) or abs(r["e"] - r["e_at_mu"]) > etol or (r["e_attr"] is not None and abs(r["e_attr"] - r["e"]) > 1e-12):
+                raise Fail(f"simulate() ({tag}, optimizer {case['optimizer']}) returns E={r['e']!r} (dmet_energy attribute "
+                           f"{r['e_attr']!r}) with chemical_potential={r['mu']!r}, but the DMET energy evaluated at that chemical "
+                           f"potential is {r['e_at_mu']!r}; difference {r['e'] - r['e_at_mu']:.3e}",
+                           sig="dmet:energy-not-at-returned-mu")
             if sorted(r["frag_counts"]) != sorted(len(f) for f in fr):
                 raise Fail(f"fragment sizes {r['frag_counts']} for request {fr}", sig="dmet:fragment-sizes")
         if abs(r1["e"] - r2["e"]) > etol:
@@ -454,7 +480,8 @@ def dmet(ctx):
         if flat != sorted(flat) or [a for f in frags2 for a in f] != list(range(n)):
             labs.add("nested-list-reorders-atoms")
         all_fci = solvers == "fci" or (isinstance(solvers, list) and set(solvers) == {"fci"})
-        spanning = all(s == r1["nao"] for s in r1["spans"]) and all(s == r2["nao"] for s in r2["spans"])
+        known = r1["spans"] is not None and r2["spans"] is not None
+        spanning = known and all(s == r1["nao"] for s in r1["spans"]) and all(s == r2["nao"] for s in r2["spans"])
         if spanning and all_fci:
             e_fci = _ref(geom, "FCI", basis, q, spin)
             for r, tag in ((r1, "original"), (r2, "relabelled")):
@@ -466,8 +493,10 @@ def dmet(ctx):
             labs.add("spanning:|mu|<1e-6" if abs(r1["mu"]) < 1e-6 else "spanning:|mu|>=1e-6")
         elif spanning:
             labs.add("spanning:non-fci-solver")
-        else:
+        elif known:
             labs.add("not-spanning")
+        else:
+            labs.add("fragment+bath-sizes-not-available")
         nontrivial = len(frags) >= 2 and perm != list(range(n))
         return nontrivial, labs
 
